@@ -43,15 +43,19 @@ def matter_case(draw):
         obj = {"expr": F10.sp_text(s), "sp": s, "proportion": draw(st.sampled_from([1, 1, 2, 3]))}
     elif kind == "substance":
         its = draw(F10.items(draw(st.integers(0, 1))))
-        obj = {"items": [[i, j] for i, j in its], "form": draw(st.sampled_from(["string", "string", "dict", "add"]))}
-        if obj["form"] == "add":
+        obj = {"items": [[i, j] for i, j in its],
+               "form": draw(st.sampled_from(["string", "string", "dict", "add", "add_in_with", "dict_frac"]))}
+        if obj["form"] == "dict_frac":
+            # amounts below one (an alloy given by fractions); a sibling with the same symbols is built first
+            obj["frac"] = draw(st.sampled_from([0.5, 0.25, 0.1, 0.8]))
+        if obj["form"] in ("add", "add_in_with"):
             sp = draw(F10.species())
             obj["add"] = [sp, draw(st.integers(1, 4))]
     else:
         n = draw(st.integers(1, 4))
         forms = draw(st.lists(st.sampled_from(F11.POOL), min_size=n, max_size=n, unique=True))
-        obj = {"comps": [[f, draw(F11.prop)] for f in forms], "form": draw(st.sampled_from(["string", "dict", "add"]))}
-        if obj["form"] == "add":
+        obj = {"comps": [[f, draw(F11.prop)] for f in forms], "form": draw(st.sampled_from(["string", "dict", "add", "add_in_with"]))}
+        if obj["form"] in ("add", "add_in_with"):
             obj["add"] = [draw(st.sampled_from(F11.POOL)), draw(F11.prop)]
     given = draw(st.sampled_from(["rho", "n"]))
     units = RHO_U if given == "rho" else N_U
@@ -92,16 +96,23 @@ def build(case, which):
     if case["kind"] == "substance":
         text = F10.render(o["items"])
         counter = F10.expand(o["items"])
-        if o["form"] == "dict":
+        if o["form"] in ("dict", "dict_frac"):
             # dictionary of species texts
             d = collections.OrderedDict()
             for (el, A, q), n in counter.items():
                 d[F10.sp_text({"el": el, "A": A, "q": (q or None), "qs": "num"})] = n
+            if o["form"] == "dict_frac":
+                sibling = Substance({k: 1 for k in d}, natural=nat, **kw)      # same symbols, other amounts, same process
+                sibling.data_matter(quantity=False)
+                d = collections.OrderedDict((k, n * o["frac"]) for k, n in d.items())
+                counter = collections.Counter({k: n * o["frac"] for k, n in counter.items()})
             obj = Substance(dict(d), natural=nat, **kw)
         else:
             obj = Substance(text, natural=nat, **kw)
-        if o["form"] == "add":
+        if o["form"] in ("add", "add_in_with"):
             sp, k = o["add"]
+            if o["form"] == "add_in_with":
+                obj.__enter__()           # 'with Substance(...) as s: s.add(...)', read while the block is open
             obj.add(F10.sp_text(sp), k)
             counter = counter + collections.Counter({(sp["el"], sp["A"], sp["q"] or 0): k})
         return obj, counter, None
@@ -112,7 +123,9 @@ def build(case, which):
     else:
         obj = Material({f: p for f, p in comps}, natural=nat, norm_type=norm, **kw)
     final = collections.OrderedDict((f, p) for f, p in comps)
-    if o["form"] == "add":
+    if o["form"] in ("add", "add_in_with"):
+        if o["form"] == "add_in_with":
+            obj.__enter__()
         obj.add(o["add"][0], o["add"][1])
         final[o["add"][0]] = final.get(o["add"][0], 0) + o["add"][1]
     return obj, final, {f: F11.formula_mass(f, nat) for f in final}
